@@ -161,6 +161,7 @@ type Sim struct {
 	// IODen: switch away from a task at an IOPoint with probability 1/IODen (0 = IOPoints off)
 	IODen      int
 	IOSwitches int
+	spinQuantum int64 // clock advance at the next spin break (doubles while the spinning goes on)
 	rngSalt    uint64 // per-run salt of the random sources
 	rngSalted  bool
 	ioLast     *Task
@@ -826,10 +827,31 @@ func (s *Sim) RunUntil(pred func() bool, deadline int64) bool {
 			if s.instantSteps < spinLimit {
 				continue
 			}
-			// A task is spinning at this instant: treat as quiescent so that
-			// the clock cannot freeze.
+			// A task is spinning at this instant. Spinning costs time: the clock
+			// moves on by a quantum that doubles with every consecutive break (1 us
+			// ... 100 ms), so that it cannot freeze, while tasks that are busy with
+			// a long computation at the same instant go on making progress. Only
+			// when the quantum reaches the next event is that event taken.
 			s.SpinBreaks++
 			s.instantSteps = 0
+			if s.spinQuantum == 0 {
+				s.spinQuantum = 1000
+			} else if s.spinQuantum < int64(100*time.Millisecond) {
+				s.spinQuantum *= 2
+			}
+			limit := deadline
+			if ev := s.events.peek(); ev != nil && ev.at < limit {
+				limit = ev.at
+			}
+			if s.now+s.spinQuantum < limit {
+				s.now += s.spinQuantum
+				if pred != nil && pred() {
+					return true
+				}
+				continue
+			}
+		} else {
+			s.spinQuantum = 0 // quiescent: nobody spins any more
 		}
 		if pred != nil && pred() {
 			return true
